@@ -1148,7 +1148,7 @@ func (envs *Manager) handleDeviceEvent(evt event.DeviceEvent) {
 				WithField("envState", env.CurrentState()).
 				WithField(infologger.Level, infologger.IL_Support).
 				Debug("received TASK_INTERNAL_ERROR event from task, trying to stop the run")
-			if env.CurrentState() == "RUNNING" {
+			if t.GetTraits().Critical && env.CurrentState() == "RUNNING" {
 				go func() {
 					t.GetParent().UpdateState(sm.ERROR)
 					err = env.TryTransition(NewStopActivityTransition(envs.taskman))
@@ -1159,6 +1159,9 @@ func (envs *Manager) handleDeviceEvent(evt event.DeviceEvent) {
 							Error("cannot stop run after END_OF_STREAM event")
 					}
 				}()
+			} else {
+				// no run to stop (non-critical task, or not RUNNING): the role still goes to ERROR
+				go t.GetParent().UpdateState(sm.ERROR)
 			}
 		}
 
